@@ -117,7 +117,8 @@ def write_if_changed(path, content):
 
 def build_translator():
     tdir = os.path.join(VERIF, "translator")
-    rc, out = sh(["cargo", "build", "--release", "--offline"], cwd=tdir, timeout=900)
+    rc, out = sh(["cargo", "build", "--release", "--offline"], cwd=tdir, timeout=900,
+                 env={"CARGO_TARGET_DIR": os.path.join(CACHE, "target-translator")})
     if rc != 0:
         raise RuntimeError("translator build failed:\n" + out[-3000:])
     return os.path.join(CACHE, "target-translator", "release", "bm2coq")
